@@ -107,7 +107,7 @@ class G:
 
     def choice(self, seq):
         seq = list(seq)
-        return seq[self.draw(st.integers(0, len(seq) - 1))]
+        return self.draw(st.sampled_from(seq))
 
     def subset(self, seq, percent=50):
         return [x for x in seq if self.p(percent)]
@@ -1026,3 +1026,17 @@ def type_features(idx, ns, t):
     if M.type_depth(t) >= 2:
         fs.add('nest2')
     return fs
+
+
+@st.composite
+def frontend_cases(draw, base=None):
+    """Model + layout for the frontend properties: enables the sub-domains that only the
+    frontend checks exercise (nullable aliases, wild strings) at a low rate."""
+    kw = dict(base or {})
+    r = draw(st.integers(0, 99))
+    kw.setdefault('nullable_aliases', r >= 85)
+    kw.setdefault('wild_strings', 70 <= r < 78)
+    api = draw(api_models(Cfg(**kw)))
+    from . import render
+    lay = draw(render.layouts(api)) if draw(st.integers(0, 3)) else None
+    return {'api': api, 'layout': lay}
